@@ -226,16 +226,26 @@ def run_grad(ctx) -> RuleResult:
             result.add(Finding("R-GRAD", module, "gradient", last.node, f"partials are joined along axis {_txt(axis)}"))
         comp = value.args[0]
         raw0 = last.node.value.args[0] if isinstance(last.node.value, ast.Call) and last.node.value.args else None
+        # list(...) / tuple(...) around the collection of partials changes nothing
+        while isinstance(comp, ast.Call) and isinstance(comp.func, ast.Name) and comp.func.id in ("list", "tuple") \
+                and len(comp.args) == 1 and not comp.keywords:
+            comp = comp.args[0]
+        while isinstance(raw0, ast.Call) and isinstance(raw0.func, ast.Name) and raw0.func.id in ("list", "tuple") \
+                and len(raw0.args) == 1 and not raw0.keywords:
+            raw0 = raw0.args[0]
         filtered = False
         if isinstance(comp, (ast.ListComp, ast.GeneratorExp)) and len(comp.generators) == 1:
             gen = comp.generators[0]
             it = _txt(gen.iter)
             filtered = bool(gen.ifs)
             elt = comp.elt
-        elif isinstance(comp, ast.List) and isinstance(raw0, ast.Name) and (not comp.elts or last.muts.get(raw0.id)):
+        elif isinstance(comp, ast.List) and isinstance(raw0, ast.Name):
             # accumulate form:  polys = []; for name in poly.names: polys.append(derivative(poly, name)[None])
+            # (a local list literal grows with what is appended to it; also reached through an inlined generator)
             appended = [call.args[0] for target, call in last.muts.get(raw0.id, ())
                         if isinstance(target, ast.Attribute) and target.attr == "append" and isinstance(call, ast.Call) and call.args]
+            if not appended:
+                appended = list(comp.elts)
             iters = [s for s in path if s.kind == "iter" and isinstance(s.node, ast.For)]
             if not appended:
                 continue  # zero iterations on this path: nothing to look at
